@@ -131,6 +131,45 @@ def _get_part(mod, name):
     raise KeyError(name)
 
 
+def _crash_dir(prop):
+    d = os.path.join(HERE, ".scratch", "current_cases", prop)
+    os.makedirs(d, exist_ok=True)
+    return d
+
+
+def _note_current(prop, partname, shard, case):
+    """Remember the case a shard is about to execute, so that a worker killed by a native crash (heap corruption, abort in
+    a C extension) can be traced back to its input by the parent."""
+    try:
+        path = os.path.join(_crash_dir(prop), "%s.%d.json" % (partname, shard))
+        with open(path + ".tmp", "w") as f:
+            json.dump({"part": partname, "case": case}, f, default=str)
+        os.replace(path + ".tmp", path)
+    except Exception:  # noqa: BLE001  (bookkeeping only)
+        pass
+
+
+def _selftest_abort(case, where=None):
+    """Runner self-test only: simulate a native crash (VP_SELFTEST_ABORT=part:shard:count or VP_SELFTEST_ABORT_DIGEST=prefix)."""
+    if where is not None and os.environ.get("VP_SELFTEST_ABORT") == where:
+        os.abort()
+    d = os.environ.get("VP_SELFTEST_ABORT_DIGEST")
+    if d and vcase.digest(case).startswith(d):
+        os.abort()
+
+
+def _crashes_alone(prop, partname, case):
+    """Run one case in a fresh single worker; True if that worker process dies."""
+    from concurrent.futures.process import BrokenProcessPool
+
+    try:
+        with _pool(1) as ex:
+            ex.submit(replay_worker, (prop, [{"part": partname, "case": case}], "run")).result()
+        return False
+    except BrokenProcessPool:
+        return True
+
+
 def shard_worker(args):
     prop, partname, tier, seed, shard, nshards, n_cases, ceiling = args
     t0 = time.time()
@@ -161,6 +200,8 @@ def shard_worker(args):
             if time.time() - t0 > ceiling:
                 res["cut"] = True
                 return
+            _note_current(prop, partname, shard, case)
+            _selftest_abort(case, "%s:%d:%d" % (partname, shard, res["cases"]))
             out, err = run_case(part, case)
             if err is not None:
                 res["harness_error"] = {"case": case, "trace": err}
@@ -292,6 +333,7 @@ def replay_worker(args):
                 part.setup()
                 setups.add(part.name)
             if True:
+                _selftest_abort(job["case"])
                 o, err = run_case(part, job["case"])
                 out.append(
                     {
@@ -368,6 +410,10 @@ def main(argv=None):
     if a.replay:
         with open(a.replay) as f:
             rep = json.load(f)
+        if _crashes_alone(prop, rep["part"], rep["case"]):
+            print("  native-crash/%s: the worker process executing this case died" % rep["part"])
+            print("VIOLATION property=%s replay=%s" % (prop, _relpath(os.path.abspath(a.replay))))
+            return 1
         with _pool(1) as ex:
             r = ex.submit(replay_worker, (prop, [{"part": rep["part"], "case": rep["case"]}], "run")).result()
         if "error" in r or r["results"][0]["harness_error"]:
@@ -408,10 +454,23 @@ def main(argv=None):
     alljobs = [j for j in jobs + known_jobs if j["part"] in partnames]
     replay_count = 0
     if alljobs:
-        with _pool(1) as ex:
-            r = ex.submit(
-                replay_worker, (prop, [{"part": j["part"], "case": j["case"]} for j in alljobs], "run")
-            ).result()
+        from concurrent.futures.process import BrokenProcessPool
+
+        try:
+            with _pool(1) as ex:
+                r = ex.submit(
+                    replay_worker, (prop, [{"part": j["part"], "case": j["case"]} for j in alljobs], "run")
+                ).result()
+        except BrokenProcessPool:
+            # a saved case kills its worker: run them one by one, the ones that die are violations of their own
+            r = {"results": []}
+            for j in alljobs:
+                if _crashes_alone(prop, j["part"], j["case"]):
+                    r["results"].append({"violations": [["native-crash/" + j["part"], "the worker process executing this case died"]], "harness_error": None})
+                else:
+                    with _pool(1) as ex:
+                        one = ex.submit(replay_worker, (prop, [{"part": j["part"], "case": j["case"]}], "run")).result()
+                    r["results"].append(one["results"][0] if "results" in one else {"violations": [], "harness_error": one.get("error")})
         if "error" in r:
             harness_errors.append(r["error"])
         else:
@@ -448,9 +507,39 @@ def main(argv=None):
         for s in range(nsh):
             tasks.append((prop, p.name, tier, a.seed, s, nsh, per, ceiling))
     results = []
+    crashed = []
     if tasks:
+        from concurrent.futures.process import BrokenProcessPool
+
+        cdir = _crash_dir(prop)
+        for fn in os.listdir(cdir):
+            os.remove(os.path.join(cdir, fn))
+        broken = []
         with _pool(min(16, len(tasks))) as ex:
-            results = list(ex.map(shard_worker, tasks))
+            futs = [(t, ex.submit(shard_worker, t)) for t in tasks]
+            for t, fut in futs:
+                try:
+                    results.append(fut.result())
+                except BrokenProcessPool:
+                    broken.append(t)
+        if broken:
+            # a worker process died (native crash in code under test): find the case(s) that kill a fresh worker
+            for t in broken:
+                path = os.path.join(cdir, "%s.%d.json" % (t[1], t[4]))
+                if not os.path.exists(path):
+                    continue
+                with open(path) as f:
+                    cur = json.load(f)
+                if _crashes_alone(prop, cur["part"], cur["case"]):
+                    crashed.append(cur)
+            if not crashed:
+                harness_errors.append("a worker process died during the search and no recorded case reproduces it alone "
+                                      "(shards lost: %s)" % ", ".join("%s#%d" % (t[1], t[4]) for t in broken))
+            for cur in crashed:
+                violations.setdefault("native-crash/" + cur["part"], []).append(
+                    {"case": cur["case"], "message": "the worker process executing this case died (abort / memory corruption in "
+                     "native code reached from the code under test); reproduced in a fresh process", "part": cur["part"], "shard": None}
+                )
 
     per_part = {}
     for r in results:
